@@ -1,6 +1,6 @@
 """Property -> clauses -> rule instances.  Each check_Cxx fills a Report; it never prints."""
 from .model import AnalysisError
-from .rules import twin, effect, work, feedback, models, misc, state, fresh, pda_rules, build, dispatch, io as iorules, closed, ka_rules
+from .rules import twin, effect, work, feedback, models, misc, state, fresh, pda_rules, build, dispatch, io as iorules, closed, ka_rules, cyk
 
 ALG = ['dfa_algorithms', 'nfa_algorithms', 'pda_algorithms', 'tm_algorithms', 'cfg_algorithms', 'regexp_algorithms']
 
@@ -168,6 +168,51 @@ def check_C06(ctx, rep):
             dispatch.check_regexp_recursion(ctx, rep, f, st)
     _effect_on(ctx, rep, ['regexp_algorithms.regexp_to_nfa', 'regexp_algorithms.dfa_to_gnfa', 'regexp_algorithms.dfa_to_regexp',
                           'nfa_algorithms.nfa_union', 'nfa_algorithms.nfa_repetition', 'nfa_algorithms.nfa_concatenation'])
+
+
+def check_C07(ctx, rep):
+    rep.clauses_decided += ['CYK schedule: for n <= 12 every cell is written after the cells it reads and reads exactly the splits of its span (M7)',
+                            'diagonal seeding and pair order of the combination step (M7)',
+                            'the on-the-fly conversion precedes every use of the rules / start variable and every CYK call (CNF typestate)',
+                            'every caller of the CYK routines establishes CNF or reports the error; the empty word never indexes the table',
+                            'CNF recogniser atoms; right-hand sides unpacked under a length test (R-ARITY)']
+    rep.not_decided += ['that a cell holds exactly the deriving variables (a semantic fixed point)']
+    P = ctx.prog.func
+    if cyk.check_cyk_schedule(ctx, rep, P('cfg_algorithms.cfg_cyk_matrix')) < 12:
+        rep.note('CYK schedule not evaluated for all n <= 12')
+    if cyk.check_cnf_use(ctx, rep, P('cfg_algorithms.cfg_accepts_word')) < 3:
+        raise AnalysisError('fewer than 3 grammar uses found in cfg_accepts_word')
+    if cyk.check_cyk_callers(ctx, rep) < 4:
+        raise AnalysisError('fewer than 4 callers of the CYK routines found')
+    cyk.check_empty_word_guard(ctx, rep, P('cfg_algorithms.cfg_accepts_word'))
+    check_chomsky_recogniser(ctx, rep)
+    misc.check_arity(ctx, rep, P('cfg_algorithms.cfg_derive_word'))
+    _effect_on(ctx, rep, ['cfg_algorithms.cfg_cyk_matrix', 'cfg_algorithms.cfg_accepts_word', 'cfg.CFG.is_chomsky', 'cfg.Alternative.is_chomsky'], shared=False)
+
+
+def check_chomsky_recogniser(ctx, rep):
+    """Alternative.is_chomsky / CFG.is_chomsky contain the three right-hand-side shapes, 'S not on a right-hand side' and
+    'epsilon only for S' as atoms"""
+    import ast as _ast
+    from .astutil import u as _u
+    a = ctx.prog.func('cfg.Alternative.is_chomsky')
+    txt = ' '.join(_u(r.value) for r in _ast.walk(a.node) if isinstance(r, _ast.Return))
+    shapes = {'empty right-hand side': 'len(self.symbols) == 0',
+              'single terminal': 'len(self.symbols) == 1 and isinstance(self.symbols[0], Terminal)',
+              'two variables': 'len(self.symbols) == 2 and isinstance(self.symbols[0], Variable) and isinstance(self.symbols[1], Variable)'}
+    for what, atom in shapes.items():
+        if atom in txt:
+            rep.holds('R-CNF.shape', a, what, 'CNF shape "{}" is recognised'.format(what), nontrivial=False)
+        else:
+            rep.violates('R-CNF.shape', a, what, 'the CNF recogniser no longer contains the shape "{}" ({})'.format(what, atom))
+    g = ctx.prog.func('cfg.CFG.is_chomsky')
+    txt = ' '.join(_u(r.value) for r in _ast.walk(g.node) if isinstance(r, _ast.Return))
+    for what, atom in {'start variable not on a right-hand side': 'self.S not in rule.variables()', 'epsilon only for the start variable': 'not rule.is_epsilon() or rule.variable == self.S',
+                       'every rule has a CNF shape': 'rule.is_chomsky()'}.items():
+        if atom in txt:
+            rep.holds('R-CNF.shape', g, what, '"{}" is part of the grammar-level CNF test'.format(what), nontrivial=False)
+        else:
+            rep.violates('R-CNF.shape', g, what, 'the grammar-level CNF test no longer requires "{}" ({})'.format(what, atom))
 
 
 def check_C08(ctx, rep):
